@@ -44,6 +44,10 @@ type c15InviteCase struct {
 	// ID] — junk | stale (the local key over other content) | other-key. It is not a signature of
 	// the local server over this event; what comes back must still carry one.
 	LocalEntry string `json:"local_entry,omitempty"`
+	// VerifierErr: the key verifier itself fails; UnknownVersion: the request names a room version the
+	// library does not know. Nothing may be accepted then.
+	VerifierErr    bool `json:"verifier_err,omitempty"`
+	UnknownVersion bool `json:"unknown_version,omitempty"`
 }
 
 type c15RoomQuerier struct {
@@ -161,9 +165,15 @@ func c15InviteCheck(ctx *vfCtx, c c15InviteCase) {
 		ctx.Unjudged("state key is not the invited user named by the caller: 'already joined' not judged")
 	}
 	available := c15InviteAvailable(c.Known, c.KnownErr, c.ExistingErr, c.Stripped, c.StateMode)
-	allGood := violated == 0 && targetMatches && available
+	allGood := violated == 0 && targetMatches && available && !c.VerifierErr && !c.UnknownVersion
 	if allGood {
 		ctx.Class("all-guards-hold")
+	}
+	if c.VerifierErr {
+		ctx.Class("verifier-fails")
+	}
+	if c.UnknownVersion {
+		ctx.Class("unknown-room-version")
 	}
 	ctx.Class(fmt.Sprintf("known=%v/existing=%s", c.Known, c.Existing))
 	switch c15Domain(sender) {
@@ -192,10 +202,18 @@ func c15InviteCheck(ctx *vfCtx, c c15InviteCase) {
 	_, priv := vfKeyFor(c15KeyLabel(c15Domain(c.Invited)))
 	var out PDU
 	var herr error
+	var verifier JSONVerifier = c15Ring(c.Keys)
+	if c.VerifierErr {
+		verifier = c15FailingVerifier{}
+	}
+	reqVersion := RoomVersion(c.Version)
+	if c.UnknownVersion {
+		reqVersion = "org.example.c15.unknown"
+	}
 	if vfCatch(ctx, "C15/invite", func() {
 		out, herr = HandleInvite(c15Quiet(), HandleInviteInput{
-			RoomID: *roomID, RoomVersion: RoomVersion(c.Version), InvitedUser: *invited, InvitedSenderID: spec.SenderID(c.Invited),
-			InviteEvent: pdu, StrippedState: ss, KeyID: c15KeyID, PrivateKey: priv, Verifier: c15Ring(c.Keys),
+			RoomID: *roomID, RoomVersion: reqVersion, InvitedUser: *invited, InvitedSenderID: spec.SenderID(c.Invited),
+			InviteEvent: pdu, StrippedState: ss, KeyID: c15KeyID, PrivateKey: priv, Verifier: verifier,
 			RoomQuerier: rq, MembershipQuerier: mq, StateQuerier: sq, UserIDQuerier: vfUserIDForSender,
 		})
 	}) {
@@ -210,6 +228,12 @@ func c15InviteCheck(ctx *vfCtx, c c15InviteCase) {
 	if herr == nil && !accepted {
 		ctx.Fail("C15/invite/no-error-no-event", "HandleInvite returned neither an error nor an event")
 		return
+	}
+	if accepted && c.VerifierErr {
+		ctx.Fail("C15/invite/accepted-despite/verifier-failure", "HandleInvite accepted and counter-signed an event although the key verifier failed (no signature was checked): %s", c.Event)
+	}
+	if accepted && c.UnknownVersion {
+		ctx.Fail("C15/invite/accepted-despite/unknown-room-version", "HandleInvite accepted an event for a room version it does not know")
 	}
 	if accepted {
 		for _, g := range guards {
@@ -324,6 +348,12 @@ func c15InviteGen(t *rapid.T) c15InviteCase {
 		ev = c15WithLocalEntry(c.Version, ev, local, c.LocalEntry)
 	}
 	c.Event = vfBytes(jplain(ev))
+	switch rapid.IntRange(0, 19).Draw(t, "infraFault") {
+	case 0:
+		c.VerifierErr = true
+	case 1:
+		c.UnknownVersion = true
+	}
 	return c
 }
 
